@@ -104,3 +104,42 @@ package common
 //@   ensures range: err == nil ==> result0 != nil && fresh(result0) && 0 <= val(result0) && val(result0) < pow2(numBits)
 //@   ensures fail: err != nil ==> result0 == nil
 //@   modifies nothing
+
+//@ # ---- helpers of key generation (C16) ----
+//@ declare legendre/2
+//@ func LegendreSymbol
+//@   property C16
+//@   safety
+//@   requires a != nil && p != nil && val(p) > 0
+//@   ensures range: result == 1 || result == 0 - 1 || result == 0
+//@   premise definition: result == legendre(val(a), val(p))
+//@   modifies nothing
+//@   loop 0 invariant n != nil && m != nil && tmp != nil && fresh(n) && fresh(m) && fresh(tmp) && n != m && n != tmp && m != tmp && val(n) >= 0 && val(m) > 0 && (j == 1 || j == 0 - 1)
+//@   loop 1 invariant n != nil && m != nil && tmp != nil
+//@   loop 1 invariant fresh(n)
+//@   loop 1 invariant fresh(m)
+//@   loop 1 invariant fresh(tmp)
+//@   loop 1 invariant n != m
+//@   loop 1 invariant n != tmp && m != tmp
+//@   loop 1 invariant val(n) > 0 && val(m) > 0
+//@   loop 1 invariant (j == 1 || j == 0 - 1)
+//@   loop 0 modifies onlyfresh("BV")
+//@   loop 1 modifies onlyfresh("BV")
+
+//@ func FastRandomBigInt
+//@   property C16
+//@   trusted the process-wide generator (AES-CTR over an atomic counter) never returns an error, so crypto/rand.Int over it yields a value below the limit; the concurrency of the counter is not modelled
+//@   requires limit != nil && val(limit) > 0
+//@   ensures range: result != nil && fresh(result) && 0 <= val(result) && val(result) < val(limit)
+//@   modifies nothing
+
+//@ declare isqr/2b
+//@ axiom squareisqr(r, n): gcd(r, n) == 1 ==> isqr(rem(prod(r, r), n), n)
+//@ func RandomQR
+//@   property C16
+//@   safety
+//@   uses squareisqr
+//@   requires n != nil && val(n) > 1
+//@   ensures qr: result != nil && fresh(result) && isqr(val(result), val(n)) && 0 <= val(result) && val(result) < val(n)
+//@   modifies nothing
+//@   loop 0 modifies onlyfresh("BV")
